@@ -62,6 +62,12 @@ class OneStepLoop:
     def run(self, I, node, frame):
         from .interp import _Continue, _Break
 
+        import ast as _ast
+
+        if isinstance(node, _ast.For):
+            # the iterable expression is evaluated as in the real code (it may create the iterator the body shares)
+            it = yield from I.eval(node.iter, frame)
+            frame.locals["__loop_iterable__"] = it
         frame.locals.update(self.state)
         how = "fallthrough"
         try:
